@@ -170,6 +170,14 @@ def _assembly(ctx, rule, fi, r, st, node, entries, netloc, results):
         comps = {"raw_user": ("const", None), "raw_password": ("const", None), "host": netloc, "explicit_port": ("const", None)}
     if comps is None:
         return
+    if "raw_host" in entries:
+        # the pre-filled host is the host component of the assembled authority (without the brackets of an IP literal)
+        e = entries["raw_host"]
+        if e[0] == "sub" and e[2] == ("slice", ("const", 1), ("const", -1), ("const", None)):
+            e = e[1]
+        ok = e == comps["host"]
+        bad = () if ok else (f"eager {show(entries['raw_host'])[:50]} but the authority is assembled from {show(comps['host'])[:50]}",)
+        results.setdefault(("raw_host (assembly)", bad), []).append(("", [("pre-filled host is the host the authority was assembled from", ok)], node))
     for k in ("raw_user", "raw_password", "explicit_port"):
         if k not in entries:
             continue
@@ -189,16 +197,17 @@ def _sh4c(ctx, model, shapes, fi, methods, fillers, results):
     r = analyze(model, fi, merge=False)
     seen = set()
     for st, rv, node in r.returns:
-        if rv[0] != "new":
+        view = fresh_view(model, st, rv)
+        if view is None:
             continue
-        cache = st.heap.get((rv, "_cache"))
+        cache = view.get("_cache")
         entries = {}
         t = cache
         while t is not None and t[0] == "mut":
             if t[2] == "setitem" and t[3][0][0] == "const":
                 entries.setdefault(t[3][0][1], t[3][1])
             t = t[1]
-        slots = {attr: v for (obj, attr), v in st.heap.items() if obj == rv and attr != "_cache"}
+        slots = {attr: v for attr, v in view.items() if attr != "_cache"}
         sub = {("attr", S, kk): vv for kk, vv in entries.items()}
         for k, ev in entries.items():
             if k in fillers or k not in methods:
